@@ -7,6 +7,7 @@ Oracle (REF): set-based BFS over reversed edges + Counter of reversed edges.
 """
 import collections
 import os
+import shutil
 import tempfile
 
 from hypothesis import strategies as st
@@ -125,9 +126,7 @@ def board_case(length, width, seed):
         rg.write_robots(path, length, width, moves, rewards, loose, 0.1, 0.1, 0.1)
         games = r.conditionalrewards.read_dict_from_file(path)
     finally:
-        if os.path.exists(path):
-            os.remove(path)
-        os.rmdir(d)
+        shutil.rmtree(d, ignore_errors=True)
     g = games["game_c"]
     return dict(tl=g["transition_list"], finals=g["final_states"], board=[length, width, seed])
 
